@@ -1,5 +1,7 @@
 import Driver.Util
 import PbBss.Model.Tensor
+import PbBss.Model.TensorEm
+import PbBss.Model.Num
 /-! line-protocol operations of the reversed-index tensor layer (`driver_tensor`).
 
 A tensor travels as `ndim d0 … d(ndim-1) x0 x1 …` (NumPy shape order, row-major data, floats as IEEE-754
@@ -115,6 +117,207 @@ def gmmRun (ct : CovType) (eps l2p : Float) (y init sal : T Float) (n : Nat) : G
 
 def fmtGmm (m : Gmm Float) : String :=
   fmtT m.weight ++ " | " ++ fmtT m.mean ++ " | " ++ fmtT m.cov ++ " | " ++ fmtT m.pc ++ " | " ++ fmtT m.logDet
+
+/-! ### EM loops of the directional mixture trainers (`PbBss/Model/TensorEm.lean`)
+
+Externals: `np.linalg.eigh` of one matrix = the Jacobi routine of `Model/Num.lean` (`eighJ`; eigenvector phases differ
+from LAPACK's, the harness compares gauge-free quantities); the elementwise externals (`log_norm`, the Watson
+concentration spline) are tables of the values the REAL call produced: `tableFn keys vals x` returns the value whose
+key is nearest to `x` (the model's arguments differ from the code's by rounding only). -/
+
+def materializeC (t : T CF) : T CF :=
+  let size := prodList t.rshape
+  let data : Array CF := ((List.range size).map fun o => t.get (unravel t.rshape o)).toArray
+  ⟨t.rshape, fun idx => data.getD (ravel t.rshape idx) ⟨0, 0⟩⟩
+
+def toArr (t : T Float) : Array Float :=
+  ((List.range (prodList t.rshape)).map fun o => t.get (unravel t.rshape o)).toArray
+
+/-- the graph of an elementwise external on the points the real call evaluated, read at the nearest key -/
+def tableFn (keys vals : Array Float) (x : Float) : Float := Id.run do
+  let mut best := 0
+  let mut bd : Float := 1.0 / 0.0
+  for i in [0:keys.size] do
+    let d := Float.abs (keys[i]! - x)
+    if d < bd then
+      bd := d
+      best := i
+  return vals.getD best 0
+
+/-- `np.linalg.eigh` of ONE Hermitian matrix `(D, D)`: `(eigenvectors as columns, ascending eigenvalues)` -/
+def eighJ (m : T CF) : T CF × T Float :=
+  let n := m.rshape.getD 0 0
+  let a : Num.Mat := Array.ofFn (n := n) fun i => Array.ofFn (n := n) fun j =>
+    let z := m.get [j.val, i.val]; (⟨z.re, z.im⟩ : Num.C)
+  let r := Num.eigh n a
+  let vals := r.1
+  let v := r.2
+  (⟨[n, n], fun idx =>
+      let c := ((v.getD (idx.getD 1 0) #[]).getD (idx.getD 0 0) ⟨0, 0⟩); (⟨c.re, c.im⟩ : CF)⟩,
+   ⟨[n], fun idx => vals.getD (idx.getD 0 0) 0⟩)
+
+def matV (m : Vmfmm Float) : Vmfmm Float := ⟨materialize m.weight, materialize m.mean, materialize m.conc⟩
+def matW (m : Cwmm Float CF) : Cwmm Float CF := ⟨materialize m.weight, materializeC m.mode, materialize m.conc⟩
+def matC (m : Cacgmm Float CF) : Cacgmm Float CF := ⟨materialize m.weight, materializeC m.vecs, materialize m.vals⟩
+
+def fmtV (m : Vmfmm Float) : String := fmtT m.weight ++ " | " ++ fmtT m.mean ++ " | " ++ fmtT m.conc
+def fmtW (m : Cwmm Float CF) : String := fmtT m.weight ++ " | " ++ fmtTC m.mode ++ " | " ++ fmtT m.conc
+def fmtC (m : Cacgmm Float CF) : String := fmtT m.weight ++ " | " ++ fmtTC m.vecs ++ " | " ++ fmtT m.vals
+
+/-- `VMFMMTrainer.fit` (`vmfmmTrainerFit`) with the state stored as data after every step; returns the model after
+`n + 1` iterations and its posterior `model.predict(y)` -/
+def vmfmmRun (eps minC maxC : Float) (lnorm : Nat → Float → Float) (y init : T Float) (sal : Option (T Float)) (n : Nat) :
+    Vmfmm Float × T Float := Id.run do
+  let yn := materialize (unitNormReal tinyT y)
+  let s := match sal with
+    | none => const (eraseAt 1 init.rshape 1) 1
+    | some s => s
+  let mut m := matV (vmfmmMStep tinyT eps minC maxC yn init s)
+  for _ in [0:n] do
+    let aff := materialize (vmfmmPredict tinyT lnorm m yn)
+    m := matV (vmfmmMStep tinyT eps minC maxC yn aff s)
+  return (m, materialize (vmfmmPredict tinyT lnorm m y))
+
+/-- `CWMMTrainer.fit` (`cwmmTrainerFit`) step by step; also reports whether the hypothesis `GoodLead` of `cwmmFit_slices`
+held for the scatter stack of every iteration and every leading index -/
+def cwmmRun (eps : Float) (kinv : Float → Float) (lnorm : Nat → Float → Float) (y : T CF) (init : T Float)
+    (sal : Option (T Float)) (n : Nat) : Cwmm Float CF × T Float × Bool := Id.run do
+  let yn := materializeC (unitNormCx tinyT y)
+  let s : T Float := match sal with
+    | none => const (eraseAt 1 init.rshape 1) 1
+    | some s => s
+  let goodOf (aff : T Float) : Bool :=
+    let cov : T CF := cwmmScatter yn aff (some s)
+    let dims := cov.rshape.drop 3
+    (List.range (prodList dims)).all fun o => goodLeadB 2 cov (unravel dims o)
+  let mut m := matW (cwmmMStep eps eighJ kinv yn init (some s))
+  let mut good := goodOf init
+  for _ in [0:n] do
+    let aff := materialize (cwmmPredict tinyT lnorm m yn)
+    good := good && goodOf aff
+    m := matW (cwmmMStep eps eighJ kinv yn aff (some s))
+  return (m, materialize (cwmmPredict tinyT lnorm m y), good)
+
+/-- `CACGMMTrainer.fit` (`cacgmmTrainerFit`) step by step; returns the model after `n + 1` iterations and
+`model.predict(y, return_quadratic_form=True)` -/
+def cacgmmRun (eps floor : Float) (herm : Bool) (clip : Option Float) (y : T CF) (init : T Float)
+    (sal : Option (T Float)) (n : Nat) : Cacgmm Float CF × T Float × T Float := Id.run do
+  let yn := materializeC (cacgNormalize tinyT y)
+  let aff0 := materialize (broadcastLead 2 (yn.rshape.drop 2) init)
+  let mut m := matC (cacgmmMStep tinyT eps floor herm eighJ yn (const aff0.rshape 1) aff0 sal)
+  for _ in [0:n] do
+    let p := cacgmmPredict tinyT clip m yn
+    let aff := materialize p.1
+    let q := materialize p.2
+    m := matC (cacgmmMStep tinyT eps floor herm eighJ yn q aff sal)
+  let p := cacgmmPredict tinyT none m yn
+  return (m, materialize p.1, materialize p.2)
+
+def opsTensorEm (a : Array String) : Option String :=
+  match a[0]! with
+  | "vmfmm-mstep" =>
+    -- vmfmm-mstep eps minC maxC Y AFF SAL  ->  weight | mean | concentration
+    let (y, o) := parseT a 4
+    let (aff, o) := parseT a o
+    let (sal, _) := parseT a o
+    some (fmtV (vmfmmMStep tinyT (tokFloat a 1) (tokFloat a 2) (tokFloat a 3) y aff sal))
+  | "vmfmm-predict" =>
+    -- vmfmm-predict KEYS VALS W MEAN CONC Y  ->  affiliation      (KEYS/VALS: graph of log_norm)
+    let (ks, o) := parseT a 1
+    let (vs, o) := parseT a o
+    let (w, o) := parseT a o
+    let (mean, o) := parseT a o
+    let (conc, o) := parseT a o
+    let (y, _) := parseT a o
+    let tab := tableFn (toArr ks) (toArr vs)
+    some (fmtT (vmfmmPredict tinyT (fun _ => tab) ⟨w, mean, conc⟩ y))
+  | "vmfmm-fit" | "vmfmm-fit-direct" =>
+    -- vmfmm-fit n hasSal eps minC maxC KEYS VALS Y INIT [SAL]  ->  weight | mean | concentration | posterior
+    -- (-direct: the recursive definition `vmfmmTrainerFit` itself, function-valued state: tiny cases only; no posterior)
+    let n := tokNat a 1
+    let hasSal := tokNat a 2 == 1
+    let (ks, o) := parseT a 6
+    let (vs, o) := parseT a o
+    let (y, o) := parseT a o
+    let (init, o) := parseT a o
+    let sal := if hasSal then some (parseT a o).1 else none
+    let tab := tableFn (toArr ks) (toArr vs)
+    if a[0]! == "vmfmm-fit" then
+      let (m, post) := vmfmmRun (tokFloat a 3) (tokFloat a 4) (tokFloat a 5) (fun _ => tab) y init sal n
+      some (fmtV m ++ " | " ++ fmtT post)
+    else
+      some (fmtV (vmfmmTrainerFit tinyT (tokFloat a 3) (tokFloat a 4) (tokFloat a 5) (fun _ => tab) y init sal n))
+  | "cwmm-mstep" =>
+    -- cwmm-mstep hasSal eps KKEYS KVALS Y(complex) AFF [SAL]  ->  weight | mode | concentration   (KKEYS/KVALS: spline)
+    let hasSal := tokNat a 1 == 1
+    let (ks, o) := parseT a 3
+    let (vs, o) := parseT a o
+    let (y, o) := parseTC a o
+    let (aff, o) := parseT a o
+    let sal := if hasSal then some (parseT a o).1 else none
+    some (fmtW (cwmmMStep (tokFloat a 2) eighJ (tableFn (toArr ks) (toArr vs)) y aff sal))
+  | "cwmm-predict" =>
+    -- cwmm-predict KEYS VALS W MODE(complex) CONC Y(complex)  ->  affiliation
+    let (ks, o) := parseT a 1
+    let (vs, o) := parseT a o
+    let (w, o) := parseT a o
+    let (mode, o) := parseTC a o
+    let (conc, o) := parseT a o
+    let (y, _) := parseTC a o
+    let tab := tableFn (toArr ks) (toArr vs)
+    some (fmtT (cwmmPredict tinyT (fun _ => tab) ⟨w, mode, conc⟩ y))
+  | "cwmm-fit" | "cwmm-fit-direct" =>
+    -- cwmm-fit n hasSal eps KKEYS KVALS LKEYS LVALS Y(complex) INIT [SAL]  ->  weight | mode | concentration | posterior | good
+    let n := tokNat a 1
+    let hasSal := tokNat a 2 == 1
+    let (kk, o) := parseT a 4
+    let (kv, o) := parseT a o
+    let (lk, o) := parseT a o
+    let (lv, o) := parseT a o
+    let (y, o) := parseTC a o
+    let (init, o) := parseT a o
+    let sal := if hasSal then some (parseT a o).1 else none
+    let kinv := tableFn (toArr kk) (toArr kv)
+    let ltab := tableFn (toArr lk) (toArr lv)
+    if a[0]! == "cwmm-fit" then
+      let (m, post, good) := cwmmRun (tokFloat a 3) kinv (fun _ => ltab) y init sal n
+      some (fmtW m ++ " | " ++ fmtT post ++ " | 0 " ++ fmtFloats [if good then 1.0 else 0.0])
+    else
+      some (fmtW (cwmmTrainerFit tinyT (tokFloat a 3) eighJ kinv (fun _ => ltab) y init sal n))
+  | "cacgmm-mstep" =>
+    -- cacgmm-mstep hermitize hasSal eps floor X(complex, (..., D, N)) Q AFF [SAL]  ->  weight | eigenvectors | eigenvalues
+    let herm := tokNat a 1 == 1
+    let hasSal := tokNat a 2 == 1
+    let (x, o) := parseTC a 5
+    let (q, o) := parseT a o
+    let (aff, o) := parseT a o
+    let sal := if hasSal then some (parseT a o).1 else none
+    some (fmtC (cacgmmMStep tinyT (tokFloat a 3) (tokFloat a 4) herm eighJ x q aff sal))
+  | "cacgmm-predict" =>
+    -- cacgmm-predict hasClip eps W VECS(complex) VALS Y(complex, (..., D, N))  ->  affiliation | quadratic_form
+    let clip := if tokNat a 1 == 1 then some (tokFloat a 2) else none
+    let (w, o) := parseT a 3
+    let (vecs, o) := parseTC a o
+    let (vals, o) := parseT a o
+    let (y, _) := parseTC a o
+    let p := cacgmmPredict tinyT clip ⟨w, vecs, vals⟩ y
+    some (fmtT p.1 ++ " | " ++ fmtT p.2)
+  | "cacgmm-fit" | "cacgmm-fit-direct" =>
+    -- cacgmm-fit n hermitize hasSal hasClip clipEps eps floor Y(complex, (..., N, D)) INIT [SAL]
+    --   ->  weight | eigenvectors | eigenvalues | posterior | quadratic_form     (posterior of `CACGMM.predict`)
+    let n := tokNat a 1
+    let herm := tokNat a 2 == 1
+    let hasSal := tokNat a 3 == 1
+    let clip := if tokNat a 4 == 1 then some (tokFloat a 5) else none
+    let (y, o) := parseTC a 8
+    let (init, o) := parseT a o
+    let sal := if hasSal then some (parseT a o).1 else none
+    if a[0]! == "cacgmm-fit" then
+      let (m, post, q) := cacgmmRun (tokFloat a 6) (tokFloat a 7) herm clip y init sal n
+      some (fmtC m ++ " | " ++ fmtT post ++ " | " ++ fmtT q)
+    else
+      some (fmtC (cacgmmTrainerFit tinyT (tokFloat a 6) (tokFloat a 7) herm clip eighJ y init sal n))
+  | _ => none
 
 def opsTensor (a : Array String) : Option String :=
   match a[0]! with
@@ -294,6 +497,6 @@ def opsTensor (a : Array String) : Option String :=
     let (y, _) := parseTC a o
     let (lp, q) := cacgLogPdf tinyT vecs vals y
     some (fmtT lp ++ " | " ++ fmtT q)
-  | _ => none
+  | _ => opsTensorEm a
 
 end Driver
